@@ -279,6 +279,7 @@ def watcher(R, cfg, b):
     paths = enumerate_paths(b) or []
     for p in paths:
         if u.bb not in p.blocks:
-            rets = [s for _, _, s in p.stmts() if s['place']['l'] == 0]
-            okn = len(rets) == 1 and rets[0]['rv']['k'] == 'use' and rets[0]['rv']['op'].get('text') == 'false'
+            rets = [(bb, s) for bb, _, s in p.stmts() if s['place']['l'] == 0]
+            okn = len(rets) == 1 and rets[0][1]['rv']['k'] == 'use' and \
+                (rets[0][1]['rv']['op'].get('text') == 'false' or b.access_path(rets[0][1]['rv']['op'], at=rets[0][0]) == ['const:false'])
             R.check(okn, cfg, b.path, 'no-watcher-arm=false', 'a watcher without reload id must report false', b.loc())
